@@ -385,6 +385,8 @@
 ; signature, and number of successful IncrementKeysetCounter calls
 ;@ghost rst.sigbatches Int
 ;@ghost wdb.saves Int
+; keyset id stored with a melt quote (the keyset its NUT-08 change outputs were derived from)
+;@ghost wdb.meltchange (Array Str Str)
 
 ;@module wfees sums
 ; Input fees as the wallet computes them (wallet.feesForProofs): the active
